@@ -249,6 +249,8 @@ class Rec:
         self.pools = {}     # scheduler id -> [objects]
         self.sched = {}     # scheduler id -> scheduler object
         self.cleanfail = set()   # ids whose clean action raises
+        self.rosters = {}        # scheduler id -> the very list object handed to DoDoer(doers=) / do(doers=): the caller's
+                                 # own roster, which the caller keeps up to date (it must NOT be aliased by the scheduler)
         self.dead = False   # set once a Runaway has been reported: later events (GC closes) are dropped
         self.cycles = 0
 
@@ -295,20 +297,35 @@ class Leaf:
         import types
         return types.MethodType(o.__func__, o.__self__) if isinstance(o, types.MethodType) else o
 
+    def sync_roster(self, sid, add=(), drop=()):
+        """the caller's own bookkeeping: it appends to / drops from ITS list before telling the scheduler"""
+        r = self.rec.rosters.get(sid)
+        if r is None:
+            return
+        for o in add:
+            if o not in r:
+                r.append(o)
+        for o in drop:
+            if o in r:
+                r.remove(o)
+
     def run_ops(self, ops, tyme):
         s = self.rec.sched[self.sid]
         fresh = self.fresh
         for op in ops:
             if op[0] == "extend":
                 pool = self.rec.pools[self.sid]
+                self.sync_roster(self.sid, add=[pool[k] for k in op[1] if 0 <= k < len(pool)])
                 s.extend([fresh(pool[k]) for k in op[1] if 0 <= k < len(pool)])
             elif op[0] == "xextend":          # extend() on another scheduler (a DoDoer), with that scheduler's pool
                 gid = op[1][0]
                 g, pool = self.rec.sched[gid], self.rec.pools[gid]
+                self.sync_roster(gid, add=[pool[k] for k in op[1][1:] if 0 <= k < len(pool)])
                 g.extend([fresh(pool[k]) for k in op[1][1:] if 0 <= k < len(pool)])
                 self.rec.ev(gid, "doers", tyme(), tuple(self.ids_of(g.doers)))
                 continue
             else:
+                self.sync_roster(self.sid, drop=[self.rec.obj[i] for i in op[1] if i in self.rec.obj])
                 s.remove([fresh(self.rec.obj[i]) for i in op[1] if i in self.rec.obj])
             self.rec.ev(self.sid, "doers", tyme(), tuple(self.ids_of(s.doers)))
 
@@ -469,7 +486,9 @@ def build_group(rec, spec):
             super().remove(doers)
             rec.ev(gid, "rmEnd", self.tyme)
 
-    g = G(doers=[build(rec, k, gid) for k in kids], always=always, tock=tock)
+    roster = [build(rec, k, gid) for k in kids]
+    rec.rosters[gid] = roster
+    g = G(doers=roster, always=always, tock=tock)
     rec.pools[gid] = [build(rec, k, gid) for k in pool]
     rec.sched[gid] = g
     return g
@@ -518,6 +537,7 @@ def run_program(case, mode="do"):
     doist = make_doist(rec, tock, start, limit)
     rec.sched[0] = doist
     doers = [build(rec, s, 0) for s in specs]
+    rec.rosters[0] = doers
     rec.pools[0] = [build(rec, s, 0) for s in pool]
     raised = "-"
     n = None
@@ -1211,6 +1231,7 @@ def run_sequence(case):
             rec.cycles = 0
             first = len(rec.log)
             doers = [rec.obj[s[1]] if s[1] in rec.obj else build(rec, s, 0) for s in specs]
+            rec.rosters[0] = doers
             rec.pools[0] = [rec.obj[s[1]] if s[1] in rec.obj else build(rec, s, 0) for s in pool]
             kw = {}
             if st is not None:
